@@ -34,7 +34,13 @@ META = {
             'task remains.  Engine S: 2-3 virtual threads (client(s), reactor, executor worker, pool.shutdown()) with a scheduling point '
             'at every line of every method of the pool class and at every lock/condition/event; all schedules within the preemption '
             'bound; includes, for both pool classes, two clients borrowing at once when one slot is left / when the connection is full '
-            'and the reactor frees a slot, and a client borrowing while the replacement task runs, is refused and retried; for the v2 pool '
+            'and the reactor frees a slot, and a client borrowing while the replacement task runs, is refused and retried; for both '
+            'pool classes a client that WAITS for a slot on a full connection while the pool is shut down -- by shutdown() on another '
+            'thread (the closed connection fails its pending requests back into the pool: slots are free again), or by the connection '
+            'breaking and the host being convicted (the returns of the failed requests come first, one of them shuts the pool down); '
+            'v2, thorough tier, also two waiters, shutdown() and a reactor answering at once -- judged at the moment a stream id is handed out: not to '
+            'a thread that was suspended in a wait on a condition when the pool\'s shutdown() returned (whatever it decides after '
+            'waking up it decides on a pool that is already shut down: its borrow has to fail); for the v2 pool '
             '(thresholds 1/2, two connections) the return that sets a connection aside while another request is pending on it, against '
             'shutdown(), against a borrow and against that other request being given up on a timer thread, with what is left outstanding '
             'ending by client timeout (late answers afterwards) or by its answer; a pool that no '
@@ -86,7 +92,12 @@ def s_configs(ctx):
     leg2 = dict(leg, min_reqs=1, max_reqs=2, max_in_flight=3)
     TWO_CONNS = [('req',), ('req',), ('task', 0, 'ok'), ('req',)]
     b = 2 if ctx.thorough else 1
-    return [
+    more = [
+        # v2: two waiters, shutdown() and the reactor answering a pending request, all at once (four threads: thorough tier only)
+        ('v2-two-waiters-vs-shutdown-vs-return', dict(leg, max_conns=1, stage=[('req',), ('req',)],
+                                                      threads=['client', 'client', 'shutdown', 'reactor']), 1),
+    ] if ctx.thorough else []
+    return more + [
         # a replacement task is queued, one live request is on the overloaded connection
         ('hc-replace-vs-shutdown', dict(hc, stage=OVERLOADED + [('req',)], threads=['worker', 'shutdown', 'reactor']), b),
         # a borrow, the return of an answered request and the shutdown overlap
@@ -104,6 +115,17 @@ def s_configs(ctx):
         # v2: the only connection is full, two clients wait for the slot the reactor frees
         ('v2-full-two-waiters', dict(leg, max_conns=1, stage=[('req',), ('req',)], shutdown_at_end=True,
                                      threads=['client', 'client', 'reactor']), b),
+        # the connection is full and a client waits inside borrow_connection() while the pool is shut down (see the v2 twins below)
+        ('hc-waiter-vs-shutdown', dict(hc, max_in_flight=3, stage=[('req',), ('req',)], threads=['client', 'shutdown']), b),
+        ('hc-waiter-vs-host-down', dict(hc, max_in_flight=3, convict=True, stage=[('req',), ('req',)], threads=['client', 'script'],
+                                        script=[('defunct', 1)]), b),
+        # v2: the only connection is full (2 slots) and a client waits in _wait_for_conn() while the pool is shut down -- by
+        # shutdown() (the connection is closed, its pending requests fail back into the pool: slots are free again), or because
+        # the connection breaks and the host is convicted (the returns of the failed requests come first, one of them shuts the
+        # pool down); the woken waiter must fail, not take a slot
+        ('v2-waiter-vs-shutdown', dict(leg, max_conns=1, stage=[('req',), ('req',)], threads=['client', 'shutdown']), b),
+        ('v2-waiter-vs-host-down', dict(leg, max_conns=1, convict=True, stage=[('req',), ('req',)], threads=['client', 'script'],
+                                        script=[('defunct', 1)]), b),
         # v2: the growth task is queued (one request in flight >= max_requests)
         ('v2-grow-vs-shutdown', dict(leg, stage=[('req',)], threads=['worker', 'shutdown', 'reactor']), b),
         # v2: two connections, a borrow overlaps the return that trashes one of them and the shutdown
@@ -148,6 +170,8 @@ def run(ctx):
     ctx.assume('engine E: handlers are atomic with respect to each other; the races are the business of the engine S harnesses')
     ctx.assume('client timeouts may expire in any order (per-request timeouts are chosen by the application)')
     ctx.assume('a reactor delivers bytes and fires timers from one thread (true of every shipped reactor)')
+    ctx.assume('a borrow that passed its shutdown test before shutdown() began and takes its slot afterwards without ever waiting is '
+               'concurrent with the shutdown and not judged; a borrower that was suspended in the wait when shutdown() returned is')
     ctx.assume('engine S preempts between source lines, not inside one (CPython hands the GIL over between bytecodes; see DESIGN 3.1)')
 
 
